@@ -21,7 +21,7 @@ def run(tier, seed):
     # simulation part: the unmodified patch_amd64.rs against a simulated memory, incl. trampolines beyond
     # +/-2 GiB (Windows-style 12-byte entry) and fake displacements over the whole 64-bit range
     from props import _sim
-    _sim.run_sim(r, "c01sim", seed, tier, ["linux"], ["dev", "release"], nshards=5, crosscheck=False)
+    _sim.run_sim(r, "c01sim", seed, tier, ["linux"], ["dev", "release"], nshards=6, crosscheck=False)
     r.assumptions = [
         "x86-64 Linux branch of the library only; the Windows-style 12-byte entry and other OS branches are judged in simulation (sim engine)",
         "the kernel honours a hinted mmap when the hinted page is free (needed to pin the trampoline)",
